@@ -1735,6 +1735,10 @@ class GroupBy:
             result_index = common_index
             group_key = self.group_ikey
 
+        def _take(x):
+            # by position, whatever the index of a pandas object
+            return x.iloc[indexer] if isinstance(x, pd.Series) else x[indexer]
+
         arg_list = [
             signature(ema_grouped)
             .bind(
@@ -1743,8 +1747,8 @@ class GroupBy:
                 values=_val_to_numpy(val_arr)[indexer],
                 alpha=alpha,
                 halflife=halflife,
-                times=None if times is None else times[indexer],
-                mask=None if mask is None else mask[indexer],
+                times=None if times is None else _take(times),
+                mask=None if mask is None else _take(mask),
             )
             .args
             for val_arr in value_list
